@@ -681,6 +681,8 @@ def r7_yaml_equivalence(ctx):
     # to_model_function hands the YAML mapping over as it is (an explicit `null` argument stays None)
     for st_, t_ in stores(tm.node, lambda t_: isinstance(t_, ast.Subscript) and dotted(t_.value) == tm.params[0]):
         ctx.fail(tm.qual + "#rewrite", f"the model mapping is rewritten before the ModelFunction is built: {norm(st_)[:70]} (arguments written in the file no longer reach the model as written)", where=tm, node=st_)
+    for st_, v_ in local_defs(tm, tm.params[0]):
+        ctx.fail(tm.qual + "#rewrite", f"the model mapping is replaced before the ModelFunction is built: `{norm(st_)[:70]}` (arguments written in the file reach the model converted / filtered, a pipeline built from Python objects gets them as given)", where=tm, node=st_)
     for c_ in calls_in(tm.node):
         if isinstance(c_.func, ast.Attribute) and dotted(c_.func.value) == tm.params[0] and c_.func.attr in ("pop", "update", "setdefault", "clear", "popitem", "__setitem__", "__delitem__"):
             ctx.fail(tm.qual + "#rewrite", f"the model mapping is modified ({norm(c_)[:60]}) before the ModelFunction is built", where=tm, node=c_)
